@@ -313,6 +313,12 @@ impl PeerHandler {
                     None => (),
                 }
             }
+            // Handled like piece announced (again) by peer: manager decides about interest
+            BroadCmd::OfferPiece { piece_index, addrs } => {
+                if addrs.contains(&self.connection.addr) {
+                    self.trigger_cmd_recv_have(&Have::new(piece_index)).await?;
+                }
+            }
         }
 
         Ok(true)
